@@ -53,6 +53,7 @@ def classified : List (String × String × String × String) := [
   ("packages/beff-wasm/src/lib.rs", "console_log::init_with_level(log_level).expect(\"should be able to log\");", "host", "host glue: serialisation of plain data / logger initialisation"),
   ("packages/beff-wasm/src/lib.rs", "let json_str = serde_json::to_string(&v).expect(\"should be able to serialize diagnostics\");", "host", "host glue: serialisation of plain data / logger initialisation"),
   ("packages/beff-wasm/src/lib.rs", "let v = serde_json::to_string(&v).expect(\"should be able to serialize diagnostics\");", "host", "host glue: serialisation of plain data / logger initialisation"),
+  ("packages/beff-wasm/src/verif.rs", "serde_json::to_string(&v).expect(\"should be able to serialize diagnostics\")", "host", "verification hook (feature beff_verif only): serialisation of plain data"),
   ("packages/beff-wasm/src/lib.rs", "serde_json::from_str(settings).expect(\"should be able to parse settings\");", "host", "host glue: serialisation of plain data / logger initialisation")
 ]
 
